@@ -330,8 +330,16 @@ class Driver:
         self.L.iow_clear()
         self.L.iow_enable(1)
         self.emit({"e": "Reset", "kind": prog.get("kind", ""), "feat": prog.get("feat", [])})
+        self.crash_cfg = prog.get("crash")
+        self.shadow = bytearray()
+        self.shadow_w = 0          # log entries already applied to the shadow image
+        self.crash_fd = None
+        self.ncrash = 0
+        self.thin = 0
         for op in prog["ops"]:
             getattr(self, "op_" + op["op"])(op)
+            if self.crash_cfg and self.wr is not None or (self.crash_cfg and op["op"] == "wclose"):
+                self.crash_scan(op["op"] == "wclose")
         # leave nothing open
         if self.rd:
             self.L.jls_rd_close(self.rd)
@@ -474,12 +482,21 @@ class Driver:
         k = op.get("file", "a")
         d0 = self.file_digest(k)
         w0 = self.iow0()
+        self.rd_digest0 = d0
+        self.rd_open_w0 = w0
         rc = self.L.jls_rd_open(ct.byref(h), self.path(k))
         self.rd = h if rc == 0 else None
         self.rd_file = k
         ws = self.wspan(w0)
         nwr = sum(1 for i in range(ws[0], ws[1]) if self.L.iow_get(i).contents.kind in (IOW_WRITE, IOW_TRUNC))
         self.emit({"e": "ROpen", "rc": rc, "wcount": nwr, "modified": d0 != self.file_digest(k), "w": ws})
+
+    def op_unchanged(self, op):
+        """after a read session: is the file byte-identical to what it was before the open, did the
+        library write to it at all?"""
+        n = self.L.iow_count()
+        nwr = sum(1 for i in range(self.rd_open_w0, n) if self.L.iow_get(i).contents.kind in (IOW_WRITE, IOW_TRUNC))
+        self.emit({"e": "Unchanged", "same": self.file_digest(self.rd_file) == self.rd_digest0, "wcount": nwr})
 
     def op_rclose(self, op):
         if self.rd:
@@ -662,6 +679,237 @@ class Driver:
         rc = self.L.jls_copy(self.path(op.get("src", "a")), self.path(op.get("dst", "b")), None, None, None, None)
         self.emit({"e": "Copy", "rc": rc, "w": self.wspan(w0)})
 
+    # -- crash points (C03 / C19) -------------------------------------------------
+    def crash_scan(self, closing):
+        """Apply the backend writes made since the last call to a shadow image of file 'a'; before
+        applying write w, materialise the crash images 'first w writes + j bytes of write w', open each
+        in a child process and record one CrashObs event."""
+        cfg = self.crash_cfg
+        n = self.L.iow_count()
+        target = self.path("a")
+        last_defs_q = max([q for q, k in self.kinds.items() if k in ("SourceDef", "SignalDef", "WOpen")] + [0])
+        while self.shadow_w < n:
+            e = self.L.iow_get(self.shadow_w).contents
+            w = self.shadow_w
+            self.shadow_w += 1
+            if e.kind == IOW_OPEN:
+                path = ct.string_at(ct.cast(e.data, ct.c_char_p)) if e.data else b""
+                if path == target and e.len:
+                    self.crash_fd = e.fd
+                    if e.off & os.O_TRUNC:
+                        self.shadow = bytearray()
+                continue
+            if e.fd != self.crash_fd:
+                continue
+            if e.kind == IOW_CLOSE:
+                self.crash_fd = None
+                continue
+            if e.kind != IOW_WRITE or e.len <= 0:
+                continue
+            data = ct.string_at(e.data, e.len)
+            off = e.off
+            inplace = off < len(self.shadow)
+            js = [0]
+            if cfg.get("bytes", "some") == "all" and e.len <= cfg.get("all_max", 64):
+                js = list(range(0, e.len))
+            elif inplace or e.len <= 40:
+                js = sorted({0, 1, 8, 16, e.len - 1, e.len // 2} & set(range(0, e.len)))
+            else:
+                js = sorted({0, 1, e.len // 2, e.len - 1} & set(range(0, e.len))) if cfg.get("bytes", "some") != "none" else [0]
+            stride = cfg.get("stride", 1)
+            # image budget per program: thin out evenly once it is being used up
+            budget = cfg.get("budget", 800)
+            while self.ncrash > budget * (1 + self.thin) // 2:
+                self.thin += 1
+            stride = stride * (1 << min(self.thin, 6))
+            if stride > 1 and (w % stride) != 0 and not (closing and self.thin < 3):
+                js = [] if not inplace else [j for j in js if j in (0, 16)][: (1 if self.thin > 1 else 2)]
+                if inplace and self.thin > 2 and (w % (stride // 2 or 1)) != 0:
+                    js = []
+            if len(self.shadow) < 32:
+                js = [j for j in js if j == 0][:0]        # before the file header exists nothing can be opened: one probe is enough
+            for j in js:
+                img = bytearray(self.shadow)
+                if j:
+                    if off > len(img):
+                        img.extend(b"\0" * (off - len(img)))
+                    img[off:off + j] = data[:j]
+                self.crash_obs(bytes(img), w, j, e.mark, inplace, e.mark > last_defs_q)
+            if off > len(self.shadow):
+                self.shadow.extend(b"\0" * (off - len(self.shadow)))
+            self.shadow[off:off + len(data)] = data
+
+    def observe_reader(self, h):
+        """dump of everything the reader exposes, as compact projections (runs, tokens)"""
+        obs = {"sigs": [], "annos": [], "utcs": []}
+        p = ct.POINTER(SignalDef)()
+        cnt = ct.c_uint16(0)
+        rc = self.L.jls_rd_signals(h, ct.byref(p), ct.byref(cnt))
+        ids = [(p[i].signal_id, p[i].signal_type) for i in range(cnt.value)] if rc == 0 else []
+        obs["nsig"] = len(ids)
+        for (g, st) in ids:
+            s = self.sigs.get(g)
+            if st == 0 and s and s["dt"]:
+                v = ct.c_int64(-1)
+                lrc = self.L.jls_rd_fsr_length(h, g, ct.byref(v))
+                ent = {"sig": g, "lrc": lrc, "len": _clip(v.value) if lrc == 0 else -1, "rrc": 0, "runs": [], "g": True}
+                if lrc == 0 and 0 < v.value <= 4000000:
+                    nlen = int(v.value)
+                    bits = DTYPES[s["dt"]][1]
+                    nbytes = (nlen * bits + 7) // 8
+                    buf = (ct.c_uint8 * (nbytes + 64))()
+                    ent["rrc"] = self.L.jls_rd_fsr(h, g, 0, buf, nlen)
+                    if ent["rrc"] == 0:
+                        # on a crash image the first sample id is what the file says; the candidate
+                        # projection needs the id of reader index 0: the first DATA chunk's timestamp
+                        d = SignalDef()
+                        self.L.jls_rd_signal(h, g, ct.byref(d))
+                        first_abs = d.sample_id_offset
+                        runs = self.runs_abs(s, s["dt"], first_abs, unpack(s["dt"], bytes(buf)[:nbytes], nlen))
+                        ent["runs"] = runs
+                        ent["first"] = _clip(first_abs - s["base"])
+                obs["sigs"].append(ent)
+            if s is not None or g == 0:
+                ss = self.sig(g)
+                out = []
+
+                def cb(_u, a, out=out, ss=ss, st=st):
+                    a0 = a.contents
+                    size = a0.data_size
+                    data = ct.string_at(ct.addressof(a0) + Annotation.data_size.offset + 4, size) if size < (1 << 26) else b""
+                    ybits = struct.unpack("<I", struct.pack("<f", a0.y))[0]
+                    ts_rel = a0.timestamp + aoff[0] - ss["base"]
+                    out.append([_clip(ts_rel), self.anno_tok(ts_rel, a0.annotation_type, a0.storage_type, a0.group_id, ybits, data)])
+                    return 0
+                dd = SignalDef()
+                aoff = [dd.sample_id_offset if (st == 0 and self.L.jls_rd_signal(h, g, ct.byref(dd)) == 0) else 0]
+                c = ANNO_CBK(cb)
+                arc = self.L.jls_rd_annotations(h, g, -(1 << 60), c, None)
+                obs["annos"].append({"sig": g, "rc": arc, "items": out})
+                if st == 0:
+                    uout = []
+
+                    def ucb(_u, ents, size, uout=uout, ss=ss, g=g, off=aoff[0]):
+                        for i in range(size):
+                            uout.append([_clip(ents[i].sample_id + off - ss["base"]), _clip(ents[i].timestamp - ss["tbase"])])
+                        return 0
+                    uc = UTC_CBK(ucb)
+                    urc = self.L.jls_rd_utc(h, g, -(1 << 60), uc, None)
+                    obs["utcs"].append({"sig": g, "rc": urc, "items": uout})
+        ud = []
+
+        def udcb(_u, meta, stype, data, size):
+            ud.append([int(meta), int(stype), fnv(ct.string_at(data, size) if size else b""), int(size)])
+            return 0
+        udc = UD_CBK(udcb)
+        obs["ud"] = {"rc": self.L.jls_rd_user_data(h, udc, None), "items": ud}
+        return obs
+
+    def crash_obs(self, img, w, j, mark, inplace, after_defs):
+        import hashlib
+        import lifter
+        import select
+        self.ncrash += 1
+        ipath = self.path("crash")
+        with open(ipath, "wb") as f:
+            f.write(img)
+        rfd, wfd = os.pipe()
+        pid = os.fork()
+        if pid == 0:
+            # child: open the image with the real reader; everything it does is its own
+            try:
+                os.close(rfd)
+                res = {"rc": -1}
+                h = ct.c_void_p()
+                w0 = self.L.iow_count()
+                d0 = hashlib.blake2b(img, digest_size=8).hexdigest()
+                rc = self.L.jls_rd_open(ct.byref(h), ipath)
+                res["rc"] = rc
+                res["wcount"] = sum(1 for i in range(w0, self.L.iow_count()) if self.L.iow_get(i).contents.kind in (IOW_WRITE, IOW_TRUNC))
+                with open(ipath, "rb") as f:
+                    img1 = f.read()
+                res["modified"] = d0 != hashlib.blake2b(img1, digest_size=8).hexdigest()
+                if rc == 0:
+                    res["obs"] = self.observe_reader(h)
+                    self.L.jls_rd_close(h)
+                    # C19: a second and a third open must not modify the file and must show the same content
+                    same = True
+                    w2 = 0
+                    mod2 = False
+                    rc2 = 0
+                    for _ in range(2):
+                        h2 = ct.c_void_p()
+                        w1 = self.L.iow_count()
+                        rc2 = self.L.jls_rd_open(ct.byref(h2), ipath)
+                        w2 += sum(1 for i in range(w1, self.L.iow_count()) if self.L.iow_get(i).contents.kind in (IOW_WRITE, IOW_TRUNC))
+                        if rc2 != 0:
+                            same = False
+                            break
+                        o2 = self.observe_reader(h2)
+                        self.L.jls_rd_close(h2)
+                        same = same and (json.dumps(o2, sort_keys=True) == json.dumps(res["obs"], sort_keys=True))
+                    with open(ipath, "rb") as f:
+                        mod2 = f.read() != img1
+                    res["re"] = {"rc": rc2, "wcount": w2, "modified": mod2, "same": same}
+                    if cfg_lift[0]:
+                        fh, chunks, why = lifter.parse_image(img1)
+                        res["closed_ok"] = bool(fh.get("present") and fh.get("crc_ok") and fh.get("length") == len(img1) and why == "eof"
+                                                and chunks and chunks[-1]["tag"] == 0xFF and all(c["crc_ok"] and c["pcrc_ok"] for c in chunks))
+                        res["closed_why"] = "%s len=%s size=%d last=%s" % (why, fh.get("length"), len(img1), chunks[-1]["tag"] if chunks else None)
+                os.write(wfd, json.dumps(res).encode())
+            finally:
+                os._exit(0)
+        os.close(wfd)
+        buf = b""
+        term = "ok"
+        deadline = 3.0
+        import time as _t
+        t0 = _t.time()
+        while True:
+            r, _, _ = select.select([rfd], [], [], max(0.0, deadline - (_t.time() - t0)))
+            if not r:
+                term = "hang"
+                os.kill(pid, 9)
+                break
+            chunk = os.read(rfd, 1 << 20)
+            if not chunk:
+                break
+            buf += chunk
+        os.close(rfd)
+        _, status = os.waitpid(pid, 0)
+        res = {}
+        if term == "ok":
+            try:
+                res = json.loads(buf.decode())
+            except ValueError:
+                term = "crash"
+        # what is completely on disk in this image (syntax only): samples in whole DATA chunks per signal
+        fh, chunks, why = lifter.parse_image(img)
+        ondisk = {}
+        for ch in chunks:
+            kind, tt, ck = lifter.tag_info(ch["tag"])
+            if kind == "track" and tt == 0 and ck == 2 and ch["pcrc_ok"] and len(ch["payload"]) >= 16:
+                ts, cnt = struct.unpack("<qI", ch["payload"][:12])
+                g = ch["meta"] & 0xfff
+                s = self.sigs.get(g)
+                if s is not None:
+                    lo, hi = ondisk.get(g, (ts, ts))
+                    ondisk[g] = (min(lo, ts), max(hi, ts + cnt))
+        obs = res.get("obs", {"sigs": [], "annos": [], "utcs": [], "ud": {"rc": 0, "items": []}, "nsig": 0})
+        for ent in obs["sigs"]:
+            lo, hi = ondisk.get(ent["sig"], (0, 0))
+            ent["ondisk"] = _clip(hi - lo)
+            ent.setdefault("first", 0)
+        self.emit({"e": "CrashObs", "k": w, "j": j, "during": int(mark), "inplace": bool(inplace), "after_defs": bool(after_defs),
+                   "term": term, "rc": res.get("rc", -1), "wcount": res.get("wcount", 0), "modified": bool(res.get("modified", False)),
+                   "sigs": obs["sigs"], "annos": obs["annos"], "utcs": obs["utcs"], "ud": obs["ud"], "nsig": obs.get("nsig", 0),
+                   "re": res.get("re", {"rc": 0, "wcount": 0, "modified": False, "same": True}),
+                   "closed_ok": bool(res.get("closed_ok", True)), "closed_why": res.get("closed_why", ""), "size": len(img)})
+        try:
+            os.remove(ipath)
+        except OSError:
+            pass
+
     def op_liftlog(self, op):
         """lift the backend writes made on a file so far into BkWrite/... events"""
         import lifter
@@ -774,6 +1022,7 @@ class Driver:
         self.emit({"e": "IoLog", "n": int(self.L.iow_count())})
 
 
+cfg_lift = [True]
 INT_MAX = 2147483647
 
 
